@@ -37,6 +37,15 @@ fn universes(tier: Tier) -> Vec<MapUniverse> {
     b.first_start = -500;
     b.tag = "/long-gaps".into();
     out.extend(b.build());
+    // (c) periodic longer maps: motifs of <= 2 objects repeated 6 times
+    let mut c = UniOpts::new(if quick { 2 } else { 3 });
+    c.cfgs = (0..4).map(|m| ModeCfg { src: m, dst: m }).collect();
+    c.gaps = vec![110, 250];
+    c.sounds = vec![0, 8];
+    c.repeat = 6;
+    c.diff = vh::gen::DiffPreset::D4;
+    c.tag = "/motif-x6".into();
+    out.extend(c.build());
     out
 }
 
